@@ -161,7 +161,7 @@ def parseVModel (value : Node) (isComponent : Bool) (argument : Option Node) (re
           let argument := if argument.isNone then some second else argument
           match (plainElem elems 2).bind arrayElems with
           | some mods => (st, v, argument, some (parseModifiers mods))
-          | none => (st, v, argument, none)
+          | none => (st, v, argument, some (setOfList rest))      -- no modifier list in the array: the `_mod` suffixes apply
       | none => (st, v, nullArg argument, some (setOfList rest))
     | none => (st, attrValue, argument, some (setOfList rest))
   let nonEmpty := match modifiers with | some m => !m.isEmpty | none => false
@@ -206,7 +206,7 @@ def parseDirective (name : AttrName) (value : Node) (isComponent : Bool) (st : S
               let argument := if argument.isNone then some second else argument
               match (plainElem elems 2).bind arrayElems with
               | some mods => (v, argument, some (parseModifiers mods))
-              | none => (v, argument, none)
+              | none => (v, argument, some (setOfList rest))      -- no modifier list in the array: the `_mod` suffixes apply
           | none => (v, argument, some (setOfList rest))
         | none => (e, argument, some (setOfList rest))
       | none =>
